@@ -400,7 +400,7 @@ struct World {
         vp_global_cfg *g = vp_global();
         g->hostname_len = std::min<size_t>(b.size(), 64); cpy(g->hostname, b.data(), g->hostname_len); g->hostname_untrunc = untrunc;
     }
-    void set_hwid(const Bytes &b) { vp_global_cfg *g = vp_global(); g->hwid_len = std::min<size_t>(b.size(), 64); cpy(g->hwid, b.data(), g->hwid_len); }
+    void set_hwid(const Bytes &b, int untrunc = 0) { vp_global_cfg *g = vp_global(); g->hwid_len = std::min<size_t>(b.size(), 160); cpy(g->hwid, b.data(), g->hwid_len); g->hwid_untrunc = untrunc; }
     // place a frame in a receive buffer as a daemon would (length clamped to MTU); returns the buffer
     uint8_t *stage(int i, const Bytes &f, DeliverMode m, uint8_t **to_free) {
         size_t n = std::min(f.size(), rxcap[i]);
